@@ -21,6 +21,7 @@ class ProgramProp(Prop):
 
     families = FAMILIES
     skip_negcycle = True
+    strong_shrink = False
 
     def shards(self, tier):
         res = []
@@ -70,7 +71,7 @@ class ProgramProp(Prop):
             s, _, _, _ = progcheck.judge(p)
             return s == sym
 
-        small = progcheck.minimise(prog, fails)
+        small = progcheck.minimise(prog, fails, strong=self.strong_shrink)
         s, detail, ref, out = progcheck.judge(small)
         case = {"program": program_text(small), "ast": small}
         extra = None
